@@ -35,7 +35,7 @@ def plan(tier, seed):
     q = tier == "quick"
     n = 12 if q else 32
     specs = [{"kind": "exh", "i": i, "n": n, "max_obj": 3 if q else 4, "max_sp": 3, "lab_exh": not q} for i in range(n)]
-    specs += [{"kind": "rand", "i": i, "count": 70 if q else 400, "max_obj": 5, "max_sp": 5, "max_fam": 4} for i in range(4 if q else 16)]
+    specs += [{"kind": "rand", "i": i, "count": 100 if q else 400, "max_obj": 5, "max_sp": 5, "max_fam": 4} for i in range(12 if q else 16)]
     specs += [{"kind": "cli", "i": i, "count": 4 if q else 10} for i in range(7 if q else 14)]
     return specs
 
@@ -243,11 +243,22 @@ def run(ctx, spec):
         for _ in range(spec["count"]):
             Gn, Sn, lm = gen.random_input(rng, spec["max_obj"], spec["max_sp"], min_obj=2)
             c = gen.random_cost(rng, coherent_only=False)
-            ordered_syn = gen.random_syntenies(rng, list(lm), spec["max_fam"], ordered=True, consistent_p=1.0)
+            wide = rng.random() < 0.25
+            if wide:
+                # long syntenies (10-20 families): lost runs spanning long stretches that an ancestor already lost,
+                # masks wider than a byte / a machine word boundary; the evaluator alone is exercised
+                nf = rng.choice([10, 12, 16, 20])
+                ordered_syn = gen.random_syntenies(rng, list(lm), nf, ordered=True, consistent_p=1.0, min_fam=nf)
+                ctx.count("wide_synteny_cases")
+            else:
+                ordered_syn = gen.random_syntenies(rng, list(lm), spec["max_fam"], ordered=True, consistent_p=1.0)
             case = {"kind": "eval", "G": Gn, "S": Sn, "leafmap": lm, "costs": c, "syn": ordered_syn}
             B = bridge.Built(case)
             maps = list(itertools.islice(dtl.all_recs(B.G, B.S, B.leafmap), 3000))
-            exts = label.linear_extensions([tuple(s) for s in ordered_syn.values()])
+            if wide:
+                exts = [label.one_extension([tuple(s) for s in ordered_syn.values()], rng) for _ in range(3)]
+            else:
+                exts = label.linear_extensions([tuple(s) for s in ordered_syn.values()])
             for m in rng.sample(maps, min(30, len(maps))):
                 check_one(ctx, case, B, m)
                 for _ in range(2):
